@@ -71,7 +71,7 @@ def run_job(args):
         if job.level != 'B':
             shims.HIT.clear()
             shims.install(job.extra() if callable(job.extra) else job.extra)
-            core.ST.defs.clear()
+            core.ST.defs.clear(); core.SQRT_OF.clear()
             if job.rlimit: core.ST.rlimit = job.rlimit
             c = Ctx('sym')
             def run():
@@ -229,7 +229,7 @@ def main(argv=None):
     if a.procs <= 1 or len(work) == 1:
         for w in work: results.append(run_job(w))
     else:
-        with ctx.Pool(min(a.procs, len(work)), maxtasksperchild=8) as pool:
+        with ctx.Pool(min(a.procs, len(work)), maxtasksperchild=1) as pool:
             for r in pool.imap_unordered(run_job, work, chunksize=1): results.append(r)
     results.sort(key=lambda r: ids.index(r['job']))
     return report(prop, tier, seed, joblist, results, time.time() - t0, a, mod)
@@ -298,8 +298,12 @@ def report(prop, tier, seed, joblist, results, wall, a, mod):
                 if prev is None: all_ids[oid] = 'proved'
                 if len(samples) < 4 and o['kind'] == 'eq': samples.append(dict(id=oid, path=o['path'], status=st, backend=o['backend'], time_s=o['time']))
             elif st == 'undecided':
-                all_ids[oid] = 'undecided'
-                undecided.append((job, o['name'], o.get('reason', '')))
+                k = match_known(known, prop, job, o['name'])
+                if k:
+                    all_ids[oid] = 'refuted'; knowns.append((job, o, 'undecided-but-known', k))
+                else:
+                    all_ids[oid] = 'undecided'
+                    undecided.append((job, o['name'], o.get('reason', '')))
             elif st == 'refuted':
                 nat = o.get('native')
                 if not (nat and nat['reproduced']):
